@@ -548,6 +548,13 @@ class MiniEval:
                 return lambda: [a for a in base.args if isinstance(a, Sym) and a.name.startswith("slot")]
             if attr == "getSubroutines":
                 return lambda: [a for a in base.args if isinstance(a, Sym) and "SubroutineDefinition" in a.attrs.get("$isa", ())]
+            if attr in ("resolveSubroutine", "assignSlot"):
+                def replace(what, by):
+                    for i, a in enumerate(base.args):
+                        if a is what:
+                            base.args[i] = by
+
+                return replace
             if attr in base.tags:
                 return base.tags[attr]
             if attr == "_sframes_container":
